@@ -112,6 +112,23 @@ def gen(tier, rng, harness=None):
             digits = "%0*d" % (j + 1, num.numerator)
             txt = ("-" if v < 0 else "") + (digits[:-j] + "." + digits[-j:] if j else digits + ".0")
             lines.append("!flt.dec %s %s" % (kind, txt))
+    # every power of two of float and double and its two neighbours (the spacing of the values changes there: shortest-digit printing must not assume a
+    # symmetric neighbourhood), and of half
+    for e in range(-149, 128):
+        for b in ((2.0 ** e),):
+            fb = struct.unpack("<I", struct.pack("<f", b))[0]
+            for nb in (fb - 1, fb, fb + 1):
+                if 0 < nb < 0x7F800000:
+                    d = struct.unpack("<Q", struct.pack("<d", struct.unpack("<f", struct.pack("<I", nb))[0]))[0]
+                    for sgn in (0, 1 << 63):
+                        h = "%016X" % (d | sgn)
+                        lines += ["flt.canon float " + h, "!flt.rt float " + h]
+    for e in (range(-1074, 1024) if tier == "thorough" else list(range(-80, 120)) + [-1074, -1073, -1023, -1022, -1021, 1022, 1023]):
+        db = struct.unpack("<Q", struct.pack("<d", 2.0 ** e))[0]
+        for nb in (db - 1, db, db + 1):
+            if 0 < nb < 0x7FF0000000000000:
+                h = "%016X" % nb
+                lines += ["flt.canon double " + h, "!flt.rt double " + h]
     # decimal literals that are NOT exactly representable are rounded to the nearest double, ties to even (LLVM rejects them for the other kinds)
     for _ in range(n):
         txt = "%s%d.%s" % (rng.choice(["", "-"]), rng.choice([0, 0, 1, 3, 123456789, rng.getrandbits(40)]), "".join(rng.choice("0123456789") for _ in range(rng.randint(1, 25))))
